@@ -56,4 +56,6 @@ def run(ctx):
     _R.pair_order(ctx, L)
     ctx.rule("R-SESSION-FRESH", "each receive session starts with its own empty reassembly buffer (nothing shared between sessions)", floor=2)
     S.session_fresh(ctx, L)
+    ctx.rule("R-REPLY-ARMS", "CTS with a grant stores window end, sending state, immediate deadline and wakes the job thread; the end-of-message acknowledge tells the listeners and finishes the session", floor=2)
+    S.reply_arms(ctx, L)
     return "structural necessary conditions of C01 decided on j1939_21.py"
